@@ -91,6 +91,34 @@ def run(chk):
             cases.append('r%sd.%d api %s %d %s - %s' % (font[:4], k, font, o, src, ' '.join(['info', probe, 'info'])))
             cases.append('h%sd.%d api %s %d %s - %s' % (font[:4], k, font, o, src, ' '.join(['info'] + hist + [probe, 'info'])))
             meta.append((font, o, len(hist)))
+    # glyphs the lazy loader cannot read (an empty attribute block in Gloc): whatever it answers for such a glyph the first time, it has
+    # to answer every time
+    import struct as _st
+    from props import fontkit as _K, cmapgen as _cg
+    udir = os.path.join(vlib.BUILD, 'fuzzfonts', 'c08u-%s-%d' % (chk.tier, chk.seed)); os.makedirs(udir, exist_ok=True)
+    for font in ('Padauk.ttf', 'charis_r_gr.ttf', 'Scheherazadegr.ttf'):
+        fp = os.path.join(vlib.REPO, 'tests/fonts', font)
+        data = open(fp, 'rb').read()
+        cm = _cg.parse_font_cmap(fp)
+        go, gl = _K.font_tables(data)[b'Gloc']
+        flags = _st.unpack('>H', data[go + 4:go + 6])[0]
+        w = 4 if flags & 1 else 2
+        cands = [c for c in S.repertoire(vlib.REPO, font) if cm.get(c, 0) > 1][:200]
+        for k in range(6 if thorough else 2):
+            ch = rng.choice(cands); g = cm[ch]
+            gloc = bytearray(data[go:go + gl])
+            nxt = gloc[8 + w * (g + 1):8 + w * (g + 2)]
+            gloc[8 + w * g:8 + w * (g + 1)] = nxt                      # block of glyph g is empty now
+            p = os.path.join(udir, 'u%d_%s' % (k, font))
+            open(p, 'wb').write(_K.replace_table(data, b'Gloc', bytes(gloc)))
+            other = [rng.choice(cands) for _ in range(2)]
+            probe = 'seg:2:32:0:-:-:%s' % ''.join('%08x' % c for c in (other[0], ch, other[1]))
+            hist = ['seg:1:32:0:-:-:%s' % ''.join('%08x' % c for c in rng.choice(([ch], [ch, other[0]], [other[1], ch, ch]))) for _ in range(rng.choice((1, 2, 3)))]
+            for o in (0, 4, 2):
+                src = rng.choice(('cb', 'file'))
+                cases.append('r%su.%d.%d api %s %d %s - %s' % (font[:4], k, o, p, o, src, ' '.join(['info', probe, 'info'])))
+                cases.append('h%su.%d.%d api %s %d %s - %s' % (font[:4], k, o, p, o, src, ' '.join(['info'] + hist + [probe, 'info'])))
+                meta.append((font, o, len(hist)))
     # hinted fonts: one gr_font with an advance callback shared by a history of the repository's own test lines (kerning, collision and
     # attachment contexts) and a probe line; whatever the font object remembers per glyph must not depend on the slot that asked first
     for font in ('Scheherazadegr.ttf', 'Awami_test.ttf', 'charis_r_gr.ttf', 'Padauk.ttf', 'Annapurnarc2.ttf'):
